@@ -162,4 +162,61 @@ theorem dispatch_rot_imm (c : Model.X86.Ctx) (row : Row) (k0 : RegKind) (i0 : Na
   rcases hk with h | h | h | h | h <;> subst h <;>
     simp [dispatch, henc, sig3, Op.kind, Op.id, Op.rmSize, Op.immVal, rtypeOf, kindSize, fix1, fixK, fixupGpb, Op.isGp8Hi, hne']
 
+/-! ### class X86Arith: `op r8, imm8` (80 /digit ib), registers other than AL (for AL the class uses the short accumulator form) -/
+
+def entryOkArithI8 (e : Entry) : Bool :=
+  match e.rule.ops, e.kinds with
+  | [f0, f3], [k0] =>
+    e.enc == 0x19 && (legRuleDOk e.rule 1 0 (digitOf e).toNat && (legAgreeOk e.rule 0x80#32 &&
+    (f0.role == .rm && (f3.role == .imm && (immBitsOf f3 == 8 && (!(immSignOf f3 == 1) && ((k0 == .gpb || k0 == .gpbhi) &&
+    (noFix f0 && formOpMatches e.rule.oszEff f0 (.reg k0 0)))))))))
+  | _, _ => false
+
+theorem arithi8_entries_ok : larithi8Chunks.all (fun c => c.all entryOkArithI8) = true := by decide +kernel
+
+/-- **front_cls_correct, class X86Arith, `op r8, imm8`**: ALL 8-bit registers but AL - BL..DL, SPL..DIL (REX), R8B..R15B, AH..BH -
+and every 8-bit immediate the form admits. -/
+theorem front_cls_correct_arith_r8_imm8 (e : Entry) (ch : List Entry) (hch : ch ∈ larithi8Chunks) (he : e ∈ ch)
+    (ctx : Spec.X86.Ctx) (r0 : BitVec 32) (imm : BitVec 64) (hm64 : ctx.mode64 = true) (h0 : r0 < 16#32)
+    (hhi : ∀ k0, e.kinds = [k0] → k0 = .gpbhi → r0 < 4#32)
+    (himm : ∀ f3, e.rule.ops[1]? = some f3 → formOpMatches e.rule.oszEff f3 (.imm imm) = true)
+    (bytes : List (BitVec 8)) :
+    ∃ k0, e.kinds = [k0] ∧
+      (emitX86R 0x80#32 (fix1 k0 r0).1 (digitOf e) (fix1 k0 r0).2 imm 1 = .ok bytes →
+        formOk ctx e.rule [.reg k0 r0.toNat, .imm imm] {} bytes = true) := by
+  have hok := mem_chunks_ok arithi8_entries_ok e ch hch he
+  unfold entryOkArithI8 at hok
+  split at hok
+  · rename_i f0 f3 k0 hops hkinds
+    simp only [Bool.and_eq_true, beq_iff_eq, Bool.not_eq_true', Bool.or_eq_true] at hok
+    obtain ⟨-, hR, hA, ra, r3, hib, hsg, hk, n0, m0⟩ := hok
+    obtain ⟨A, hmask⟩ := legAgreeOk_spec _ _ hA
+    have R := legRuleDOk_spec _ _ _ _ hR
+    have m3 : formOpMatches e.rule.oszEff f3 (.imm imm) = true := himm f3 (by rw [hops]; rfl)
+    have hal : alignOps e.rule.oszEff e.rule.ops [.reg k0 r0.toNat, .imm imm] = some [(f0, some (.reg k0 r0.toNat)), (f3, some (.imm imm))] := by
+      rw [hops]
+      exact alignOps2 _ _ _ _ _ (by rw [formOpMatches_reg_nofix _ _ _ _ n0]; exact m0) m3
+    refine ⟨k0, hkinds, ?_⟩
+    intro hb
+    have hd : digitOf e < 8#32 := by simp only [digitOf]; bv_decide
+    have hk' : k0 = .gpb ∨ k0 = .gpbhi ∨ PlainKind k0 := by rcases hk with h | h; exact Or.inl h; exact Or.inr (Or.inl h)
+    exact rmImm8_formOk ctx e.rule 0x80#32 (digitOf e) r0 k0 f0 f3 imm hm64 (by simpa using R.hmodes) hmask hk' hd h0
+      (hhi k0 hkinds) R A ra r3 hib hsg hal bytes hb
+  · simp at hok
+
+/-- the class switch reaches exactly this emission for `op r8, imm8` when the register is not AL -/
+theorem dispatch_arith_r8_imm8 (c : Model.X86.Ctx) (row : Row) (k0 : RegKind) (i0 : Nat) (imm : BitVec 64) (henc : row.encoding = 0x19)
+    (hk : k0 = .gpb ∨ k0 = .gpbhi) (hne : (fix1 k0 (r32 i0)).2 ≠ 0#32) :
+    dispatch c row 0#32 (.reg (rtypeOf k0) i0) (.imm imm) .none .none =
+      emitX86R 0x80#32 (fix1 k0 (r32 i0)).1 ((row.mainOp >>> 18) &&& 7#32) (fix1 k0 (r32 i0)).2 imm 1 := by
+  rcases hk with h | h <;> subst h
+  · have hne' : ((fixupGpb 0#32 (Op.reg 2 i0) (r32 i0)).2 == 0#32) = false := by
+      simpa [fix1, fixK, fixupGpb, Op.isGp8Hi] using hne
+    simp [dispatch, henc, sig3, Op.kind, Op.id, Op.rmSize, Op.immVal, rtypeOf, fix1, fixK, hne']
+    simp [fixupGpb, Op.isGp8Hi]
+  · have hne' : ((fixupGpb 0#32 (Op.reg 3 i0) (r32 i0)).2 == 0#32) = false := by
+      simpa [fix1, fixK, fixupGpb, Op.isGp8Hi] using hne
+    simp [dispatch, henc, sig3, Op.kind, Op.id, Op.rmSize, Op.immVal, rtypeOf, fix1, fixK, hne']
+    simp [fixupGpb, Op.isGp8Hi]
+
 end AsmjitVerif.Props.C01
